@@ -234,11 +234,14 @@ CHECKS = {
           'proved equal, as a polynomial in the flags / xi / (xi1,xi2) / (c0,c1), to the exact Bardell polynomial or integral '
           'computed from the defining formula: finite index domain enumerated completely, real parameters symbolic, so the '
           'statement holds for all real arguments. Gauss rules: exactness of all moments up to 2n-1 to the rounding bound of '
-          'the binary64 literals.'),
+          'the binary64 literals.  integrate.pyx: trapz_quad/trapz2d_points and simps2d_points are executed symbolically for symbolic numbers of points '
+          '(even and odd, rounded up as the code does); the weighted sum of x^p y^q over all emitted points is evaluated in closed form with the power-sum '
+          'formulas (induction lemma) and equals the exact integral for p, q <= 1 (trapezoid) and <= 3 (Simpson), weights sum to the area, betas are one, '
+          'the number of points equals the array length.'),
     design_ref='DESIGN.md section 4 (C10)',
     note=('trusted: own C-subset parser and exact rational normaliser (cross-checked by z3 on a seeded sample and by a canary); '
           'real arithmetic instead of binary64 inside an arm; literals compared under a 5e-14 relative tolerance; '
-          'integrate.pyx point sets: see evidence (bounded items listed there)'),
+          'np.linspace element formula assumed for the Simpson points'),
     technique='contract per table arm; VC = polynomial identity, discharged by exact normal form + z3 re-check'),
 }
 
